@@ -404,7 +404,7 @@ var strPayloads = []map[string]any{
 	{"cli": map[string]any{"path": "hledger-a", "timeout": 1000}},
 	{"cli": map[string]any{"path": "hledger-b", "timeout": 2000}},
 	{"completion": map[string]any{"maxResults": 3}, "formatting": map[string]any{"indentSize": 2}},
-	{"diagnostics": map[string]any{"undeclaredAccounts": false}, "limits": map[string]any{"maxIncludeDepth": 3}},
+	{"completion": map[string]any{"showCounts": false}, "limits": map[string]any{"maxIncludeDepth": 3}},
 	{"features": map[string]any{"diagnostics": true}, "cli": map[string]any{"enabled": false}},
 }
 
@@ -433,7 +433,8 @@ func runStress(c strCase, dir string) (any, error) {
 	names := map[string]string{"u1": "main.journal", "u2": "a.journal", "u3": "b.journal"}
 	text := func(u string, v int) string {
 		// the first transaction is off by exactly v: a publication tells which version it was computed from
-		t := ccText(u, v) + fmt.Sprintf("\n2024-04-01 marker\n    equity:marker  %d XVER\n    equity:zero  0 XVER\n", v)
+		// every version DECLARES its own account as well: what counts as declared depends on the version of every file
+		t := ccText(u, v) + fmt.Sprintf("\n2024-04-01 marker\n    equity:marker  %d XVER\n    equity:zero  0 XVER\n\naccount assets:v%d\n", v, v)
 		if u == "u1" {
 			t = "include a.journal\ninclude b.journal\n" + t
 		}
@@ -726,6 +727,22 @@ func runStress(c strCase, dir string) (any, error) {
 		}
 	}
 	want = askAll(fresh)
+	if !c.Quiet {
+		// the diagnostics the client holds for every open document (the diagnostic categories are never touched by the
+		// payloads of the streams, so what was published during the stream is comparable with a fresh server's)
+		for _, u := range []string{"u1", "u2", "u3"} {
+			if !open[u] {
+				continue
+			}
+			key := u + "/publishedDiagnostics"
+			if last := client.lastFor(string(uris[u])); last != nil {
+				got[key] = mustJSON(last.Diags)
+			}
+			if last := fresh.client.lastFor(string(uris[u])); last != nil {
+				want[key] = mustJSON(last.Diags)
+			}
+		}
+	}
 	var stale []map[string]string
 	for k, w := range want {
 		if got[k] != w {
